@@ -278,7 +278,23 @@ class InterpBase:
                     self.throw('UnboundLocalError', name)
                 return v
             f = f.parent
+        # a name that the function assigns somewhere is a local variable: reading it before assignment is an error
+        f = frame
+        while f is not None:
+            if f.fi is not None and name in self.local_names(f.fi):
+                raise PyRaise(self.mkexc('UnboundLocalError', name))
+            f = f.parent
         return self.lookup_global(name, frame.module, node)
+
+    def local_names(self, fi):
+        ln = getattr(fi, '_local_names', None)
+        if ln is None:
+            ln = set(self.assigned_names(fi.node.body))
+            a = fi.node.args
+            for x in a.posonlyargs + a.args + a.kwonlyargs:
+                ln.discard(x.arg)
+            fi._local_names = ln
+        return ln
 
     def lookup_global(self, name, module, node=None):
         ex = self.ex
